@@ -97,6 +97,8 @@ def run(run):
     blocks = pool.dump_blocks(r.dump, skip_substr='"pending"')
     rp = calls.Replayer(paths=('direct', 'wrapped', 'formula'), features=features)
     byf = calls.replay_dump(run, blocks, rp)
+    # the same calls in four orders, each order in ONE fresh process (state left behind by earlier calls)
+    calls.replay_orders(run, blocks, calls.Replayer(paths=('direct', 'wrapped'), features=features), key=lambda b: len(b), sample=20000)
     run.notes['cases_by_function'] = byf
     run.rule = ('cases = all done-states of MC_C17 (every text over {a,b,A,blank,",e-acute} up to MaxLen x every position/count '
                 'from below 1 to beyond the end); distinct by TLC fingerprint; non-trivial = expected result determined')
